@@ -152,8 +152,12 @@ class Proc:
             self.p.kill()
 
 
-def run_batch(argv, lines, timeout=900):
-    p = subprocess.run(argv, input="\n".join(lines) + "\n", capture_output=True, text=True, timeout=timeout)
+def run_batch(argv, lines, timeout=900, env=None):
+    e = None
+    if env:
+        e = dict(os.environ)
+        e.update(env)
+    p = subprocess.run(argv, input="\n".join(lines) + "\n", capture_output=True, text=True, timeout=timeout, env=e)
     outs = p.stdout.splitlines()
     return outs, p.returncode, p.stderr
 
